@@ -113,6 +113,9 @@ func init() {
 				accept := func() {
 					defer close(sv.done)
 					ab.AcceptAndServe(id, func(opts []grpc.ServerOption) *grpc.Server {
+						if f := ms(p["factory"]); f > 0 { // the accepting side needs this long between Accept and Serve (slow service set-up)
+							x.Pause(f)
+						}
 						s := grpc.NewServer(opts...)
 						grpctest.RegisterPingPongServer(s, &ppServer{tag: tag})
 						sv.srv <- s
@@ -284,6 +287,14 @@ func init() {
 				// the second connection long after the first (past every 5 s timer of the broker)
 				for _, a := range []string{"pA0", "hA0", "pD1000", "hD0"} {
 					out = append(out, explore.Params{"seq": a, "redial": "6000"})
+				}
+			case "slow-factory":
+				// the accepting side starts serving 2.5 s / 7 s after it accepted the id (the dialled stream has been waiting)
+				for _, f := range []string{"2500", "7000"} {
+					for _, a := range []string{"pA0", "pD0", "hA0", "hD0"} {
+						out = append(out, explore.Params{"seq": a, "factory": f})
+					}
+					out = append(out, explore.Params{"seq": "pA0,hA0", "factory": f})
 				}
 			case "ids":
 				// caller-chosen ids at the edges of uint32, alone and next to an ordinary id
